@@ -120,7 +120,7 @@ def _build(H, labels, ids, edges, orders):
             H._node[n].add(ids[j])
 
 
-@harness("C15.sym")
+@harness("C15.sym", raises_are_violations=True)
 def sym(ctx, p):
     shape = _shape(p["shape"])
     N, M, edges = shape
@@ -138,7 +138,7 @@ def sym(ctx, p):
     _check(ctx, H, shape, min_size, excl, _is_closed(shape))
 
 
-@harness("C15.hash")
+@harness("C15.hash", raises_are_violations=True)
 def hashed(ctx, p):
     """Real hashing: labels are forked exhaustively over a window with negatives."""
     shape = _shape(p["shape"])
